@@ -130,31 +130,6 @@ func compareNf5(addr, dgram, b []byte) (kind, what string) {
 	return "", ""
 }
 
-func genNf5(g *mon.RNG, version, count int, delta int) []byte {
-	h := wire.Nf5Header{Version: uint16(version), Count: uint16(count), SysUpTime: g.U32(), UnixSecs: g.U32(), UnixNSecs: g.U32(), SeqNo: g.U32(),
-		EngType: uint8(g.U32()), EngID: uint8(g.U32()), SmpInt: uint16(g.U32())}
-	n := count
-	if n > 45 {
-		n = 45
-	}
-	var recs []wire.Nf5Record
-	for i := 0; i < n+2; i++ {
-		recs = append(recs, wire.Nf5Record{SrcAddr: g.U32(), DstAddr: g.U32(), NextHop: g.U32(), Input: uint16(g.U32()), Output: uint16(g.U32()),
-			PktCount: g.U32(), L3Octets: g.U32(), StartTime: g.U32(), EndTime: g.U32(), SrcPort: uint16(g.U32()), DstPort: uint16(g.U32()),
-			Pad1: uint8(g.U32()), TCPFlags: uint8(g.U32()), ProtType: uint8(g.U32()), Tos: uint8(g.U32()), SrcAs: uint16(g.U32()), DstAs: uint16(g.U32()),
-			SrcMask: uint8(g.U32()), DstMask: uint8(g.U32()), Pad2: uint16(g.U32())})
-	}
-	b := wire.EncodeNf5(h, recs)
-	want := 24 + 48*n + delta
-	if want < 0 {
-		want = 0
-	}
-	for len(b) < want {
-		b = append(b, g.Bytes(48)...)
-	}
-	return b[:want]
-}
-
 func nf5Main(args mon.Args) {
 	run := mon.NewRun("C08", "wirecheck/nf5", "exploration")
 	if args.Replay != "" {
@@ -201,20 +176,20 @@ func nf5Main(args mon.Args) {
 		c := cells[i]
 		for r := 0; r < reps; r++ {
 			g := mon.NewRNG(run.Seed, "nf5grid", i*100+r)
-			one(g, genNf5(g, 5, c.count, c.delta), fmt.Sprintf("v5 count=%d delta=%d", c.count, c.delta), i == 1500 && r == 0)
+			one(g, wire.GenNf5(g, 5, c.count, c.delta), fmt.Sprintf("v5 count=%d delta=%d", c.count, c.delta), i == 1500 && r == 0)
 		}
 	})
 	run.Add("grid_cells(count x length delta)", int64(len(cells)))
 	for v := 0; v <= 10; v++ {
 		for c := 0; c <= 31; c++ {
 			g := mon.NewRNG(run.Seed, "nf5ver", v*100+c)
-			one(g, genNf5(g, v, c, 0), fmt.Sprintf("version=%d count=%d", v, c), false)
+			one(g, wire.GenNf5(g, v, c, 0), fmt.Sprintf("version=%d count=%d", v, c), false)
 		}
 	}
 	// count field extremes with plenty of data
 	for _, c := range []int{0, 1, 30, 31, 32, 255, 256, 1000, 0x7fff, 0x8000, 0xffff} {
 		g := mon.NewRNG(run.Seed, "nf5cnt", c)
-		one(g, genNf5(g, 5, c, 0), fmt.Sprintf("v5 count=%d", c), false)
+		one(g, wire.GenNf5(g, 5, c, 0), fmt.Sprintf("v5 count=%d", c), false)
 	}
 	// every field position: one field differs from an all-zero / all-ones record (swap visibility)
 	for cnt := 1; cnt <= 30; cnt += 29 {
@@ -239,13 +214,13 @@ func nf5Main(args mon.Args) {
 			if g.Chance(1, 3) {
 				delta = g.Range(0, 200)
 			}
-			one(g, genNf5(g, 5, cnt, delta), fmt.Sprintf("v5 random count=%d trailing=%d", cnt, delta), false)
+			one(g, wire.GenNf5(g, 5, cnt, delta), fmt.Sprintf("v5 random count=%d trailing=%d", cnt, delta), false)
 		}
 	})
 	// canary
 	{
 		g := mon.NewRNG(run.Seed, "canary", 0)
-		b := genNf5(g, 5, 3, 0)
+		b := wire.GenNf5(g, 5, 3, 0)
 		if k, _ := checkNf5([]byte{1, 2, 3, 4}, b); k != "" {
 			run.HarnessError("canary: a valid packet was reported: " + k)
 		}
